@@ -33,10 +33,41 @@ TARGET = {'os': 'CNB_TARGET_OS', 'arch': 'CNB_TARGET_ARCH', 'arch_variant': 'CNB
 
 def core(v):
     """strip ?/unwrap and error-mapping adapters"""
+    if v is None:
+        return ('unknown', 'none')
     v = strip(v)
     while v[0] == 'call' and v[1] in ('std::result::Result::<T, E>::map_err', 'std::result::Result::<T, E>::inspect_err') and v[2]:
         v = strip(v[2][0])
     return v
+
+
+KEEP = ('libcnb_common::toml_file::read_toml_file',)
+
+
+def stringy(v):
+    """peel conversions between string / path types (but not `?`)"""
+    while v[0] == 'updated' or (v[0] == 'call' and len(v[2]) == 1 and ('From' in v[1] or v[1].endswith(('::from', '::into', '::new')))):
+        v = v[1] if v[0] == 'updated' else v[2][0]
+    return v
+
+
+def propagated(v):
+    """the value is the success payload of a fallible read whose failure is propagated (not defaulted away)"""
+    return isinstance(v, tuple) and v[0] == 'unwrap'
+
+
+def toml_read_path(v):
+    """path of the TOML file that value v is parsed from: read_toml_file(P) or toml::from_str(read_to_string(P)?)"""
+    v = core(v)
+    if v[0] == 'call' and v[1] == 'libcnb_common::toml_file::read_toml_file' and v[2]:
+        return v[2][0]
+    if v[0] == 'call' and v[1] in ('toml::from_str', 'toml::de::from_str') and v[2]:
+        inner = v[2][0]
+        if inner[0] == 'unwrap':
+            r = core(inner[1])
+            if r[0] == 'call' and r[1] == 'std::fs::read_to_string' and r[2]:
+                return r[2][0]
+    return None
 
 
 def args_field(v, fn_path, name):
@@ -71,46 +102,49 @@ def run(ctx, rep):
         if cv[0] != 'agg' or not (cv[1] or '').endswith(adt):
             rep.unproven('R1', adt, c.where(), 'context is not a struct literal: ' + vstr(cv)[:100])
             continue
-        f = dict(cv[3])
+        # every field value is brought to a normal form first: private helpers are inlined and `?`/`map`/`and_then`
+        # are resolved to the success payload (value.inline_deep / mk_unwrap), so the rules below read the *sources*
+        # of a field, however the assembly code is split into helpers
+        f = {k: sl.inline_deep(v, keep=KEEP) for k, v in cv[3]}
         adt_fields = sorted(x['name'] for v in prog.adt(cv[1])['variants'] for x in v['fields'])
+        is_arg = lambda name: (lambda v: args_field(v, host.path, name))
+        bp_dir = lambda v: stringy(v)[0] == 'unwrap' and env_var_name(stringy(v)[1]) == 'CNB_BUILDPACK_DIR'
         checks = {
-            'app_dir': lambda v: core(v)[0] == 'call' and core(v)[1] == 'std::env::current_dir' and v[0] == 'unwrap',
-            'buildpack_dir': lambda v: core(v)[0] == 'call' and core(v)[1] == 'libcnb::runtime::read_buildpack_dir' and v[0] == 'unwrap',
-            'target': lambda v: core(v)[0] == 'call' and core(v)[1] == 'libcnb::runtime::context_target' and v[0] == 'unwrap',
-            'platform': lambda v: core(v)[0] == 'call' and core(v)[1] == 'libcnb::platform::Platform::from_path' and args_field(core(v)[2][0], host.path, 'platform_dir_path') and v[0] == 'unwrap',
-            'buildpack_descriptor': lambda v: core(v)[0] == 'call' and core(v)[1] == 'libcnb::runtime::read_buildpack_descriptor' and v[0] == 'unwrap',
+            'app_dir': lambda v: propagated(v) and core(v)[0] == 'call' and core(v)[1] == 'std::env::current_dir',
+            'buildpack_dir': bp_dir,
+            'target': lambda v: strip(v)[0] == 'agg' and (strip(v)[1] or '').endswith('target::Target'),
+            'platform': lambda v: propagated(v) and core(v)[0] == 'call' and core(v)[1] == 'libcnb::platform::Platform::from_path' and is_arg('platform_dir_path')(core(v)[2][0]),
+            'buildpack_descriptor': lambda v: propagated(v) and L.comps(toml_read_path(v), lambda y: bp_dir(y)) == ('buildpack.toml',),
         }
         if adt == 'BuildContext':
-            checks['layers_dir'] = lambda v: args_field(v, host.path, 'layers_dir_path')
-            checks['buildpack_plan'] = lambda v: core(v)[0] == 'call' and core(v)[1] == 'libcnb_common::toml_file::read_toml_file' and args_field(core(v)[2][0], host.path, 'buildpack_plan_path') and v[0] == 'unwrap'
-            checks['store'] = lambda v: v[0] == 'unwrap' and any(x[0] == 'call' and x[1] == 'libcnb_common::toml_file::read_toml_file' and
-                                                                 L.comps(x[2][0], lambda y: args_field(y, host.path, 'layers_dir_path')) == ('store.toml',) for x in walk(v))
+            checks['layers_dir'] = is_arg('layers_dir_path')
+            checks['buildpack_plan'] = lambda v: propagated(v) and toml_read_path(v) is not None and is_arg('buildpack_plan_path')(toml_read_path(v))
+            checks['store'] = lambda v: any(L.comps(toml_read_path(x), is_arg('layers_dir_path')) == ('store.toml',) for x in walk(v) if x[0] in ('unwrap', 'call'))
         rep.check(sorted(checks) == adt_fields, 'R1', adt + '/fields', c.where(), 'all %d context fields have a source rule' % len(adt_fields),
                   'context fields %s, source table knows %s' % (adt_fields, sorted(checks)))
         for name, pred in checks.items():
             v = f.get(name, ('unknown', 'missing'))
             rep.check(bool(pred(v)), 'R1', '%s/%s' % (adt, name), c.where(), '%s <- prescribed input' % name,
                       '%s.%s is built from %s' % (adt, name, vstr(v)[:140]))
-    # helper sources
-    bd = prog.fn('libcnb::runtime::read_buildpack_dir')
-    rep.analysed(bd)
-    v = strip(sl.local(bd, 0))
-    ok = v[0] == 'call' and v[1].endswith('Result::<T, E>::map') and env_var_name(v[2][0]) == 'CNB_BUILDPACK_DIR' and \
-        strip(v[2][1])[0] == 'fnitem' and 'std::path::PathBuf as std::convert::From<std::string::String>' in strip(v[2][1])[1]
-    rep.check(ok, 'R1', 'buildpack_dir/source', '%s:%d' % (bd.file, bd.line), 'PathBuf::from(env CNB_BUILDPACK_DIR), error mapped', 'read_buildpack_dir = ' + vstr(v)[:140])
-    bdesc = prog.fn('libcnb::runtime::read_buildpack_descriptor')
-    rep.analysed(bdesc)
-    v = strip(sl.local(bdesc, 0))
-    ok = v[0] == 'call' and v[1].endswith('::and_then') and strip(v[2][0])[0] == 'call' and strip(v[2][0])[1] == bd.path
-    cl = strip(v[2][1]) if ok else None
-    if ok and cl[0] == 'closure' and cl[1] in prog.fns:
-        body = prog.fns[cl[1]]
-        bv = core(sl.local(body, 0))
-        ok = bv[0] == 'call' and bv[1] == 'libcnb_common::toml_file::read_toml_file' and \
-            L.comps(bv[2][0], lambda y: y[0] == 'param' and y[1] == body.path and y[2] == 1) == ('buildpack.toml',)
-    else:
-        ok = False
-    rep.check(ok, 'R1', 'buildpack_descriptor/source', '%s:%d' % (bdesc.file, bdesc.line), 'read_toml_file(<buildpack_dir>/buildpack.toml)', 'descriptor source = ' + vstr(v)[:140])
+        # ---- R3 (per host: the Target handed to this phase) ------------------------------------------------
+        tv = strip(f.get('target', ('unknown',)))
+        if tv[0] != 'agg':
+            rep.unproven('R3', 'target/' + adt, c.where(), 'Target literal not found: ' + vstr(tv)[:100])
+        elif host is rd:
+            for name, fv in tv[3]:
+                src = env_var_name(fv)
+                if src is None:
+                    inner = strip(fv)
+                    if inner[0] == 'call' and inner[2]:
+                        src = env_var_name(inner[2][0])
+                rep.check(src == TARGET.get(name), 'R3', 'target/' + name, c.where(), '%s <- %s' % (name, TARGET.get(name)),
+                          'Target.%s is read from %s, expected %s' % (name, src, TARGET.get(name)))
+            rep.check(sorted(n for n, _ in tv[3]) == sorted(TARGET), 'R3', 'target/fields', c.where(), 'all Target fields covered', 'Target fields: %s' % [n for n, _ in tv[3]])
+        else:
+            rep.check(f.get('target') == fd.get('target'), 'R3', 'target/same-in-build', c.where(), 'build gets the same Target construction as detect',
+                      'BuildContext.target is assembled differently from DetectContext.target: ' + vstr(tv)[:120])
+        if host is rd:
+            fd = f
     # ---- R2 ------------------------------------------------------------------------------------------
     for phase, want in (('Detect', {'platform_dir_path': '[1]', 'build_plan_path': '[2]'}),
                         ('Build', {'layers_dir_path': '[1]', 'platform_dir_path': '[2]', 'buildpack_plan_path': '[3]'})):
@@ -121,26 +155,10 @@ def run(ctx, rep):
         got = {}
         if agg:
             for name, fv in agg[3]:
+                fv = stringy(strip(fv))
                 fv = strip(fv)
                 got[name] = fv[2] if fv[0] == 'index' and strip(fv[1])[0] == 'param' else vstr(fv)[:40]
         rep.check(got == want, 'R2', phase, '%s:%d' % (pf.file, pf.line), '%sArgs <- %s' % (phase, want), '%sArgs fields come from argv positions %s, the spec order is %s' % (phase, got, want))
-    # ---- R3 ------------------------------------------------------------------------------------------
-    ct = prog.fn('libcnb::runtime::context_target')
-    rep.analysed(ct)
-    v = sl.local(ct, 0)
-    agg = next((x for x in walk(v) if x[0] == 'agg' and (x[1] or '').endswith('target::Target')), None)
-    if agg is None:
-        rep.unproven('R3', 'target', ct.file, 'Target literal not found')
-    else:
-        for name, fv in agg[3]:
-            src = env_var_name(fv)
-            if src is None:
-                inner = strip(fv)
-                if inner[0] == 'call' and inner[2]:
-                    src = env_var_name(inner[2][0])
-            rep.check(src == TARGET.get(name), 'R3', 'target/' + name, '%s:%d' % (ct.file, ct.line), '%s <- %s' % (name, TARGET.get(name)),
-                      'Target.%s is read from %s, expected %s' % (name, src, TARGET.get(name)))
-        rep.check(sorted(n for n, _ in agg[3]) == sorted(TARGET), 'R3', 'target/fields', '%s:%d' % (ct.file, ct.line), 'all Target fields covered', 'Target fields: %s' % [n for n, _ in agg[3]])
     # ---- R4 ------------------------------------------------------------------------------------------
     pe = prog.fn('libcnb::platform::read_platform_env')
     rep.analysed(pe)
@@ -208,16 +226,30 @@ def run(ctx, rep):
     # ---- R5 ------------------------------------------------------------------------------------------
     st_ok = False
     detail = 'store match not found'
-    for bi, b in enumerate(rb.blocks):
-        for s in b['s']:
-            if s[0] == '=' and s[2]['r'] == 'agg' and s[2].get('variant') == 'Ok' and len(s[1]) == 1:
-                v = sl._rvalue(rb, s[2], set(), 0, None)
-                inner = strip(dict(v[3]).get('0', ('unknown',)))
-                if inner[0] == 'agg' and inner[2] == 'None' and s[1] != [0]:
-                    cds = conditions(rb, bi, sl)
+    # the place where the store becomes None: libcnb_runtime_build itself or a private helper it calls
+    from . import layer_roles
+    nf_pred = layer_roles.roles(prog, sl).get('NOT_FOUND_PRED') or 'libcnb::util::is_not_found_error_kind'
+    hosts = [g for g in prog.reach([rb]).values() if g.crate == 'libcnb' and g.kind != 'Closure'
+             and any((c.name or '').endswith('read_toml_file') for c in g.calls)
+             and any(x == ('const', 'store.toml') for c in g.calls if (c.name or '').endswith('read_toml_file') for x in walk(sl.operand(g, c.args[0])))]
+    for g in hosts:
+        rep.analysed(g)
+        for bi, b in enumerate(g.blocks):
+            for s in b['s']:
+                if not (s[0] == '=' and s[2]['r'] == 'agg' and len(s[1]) == 1):
+                    continue
+                v = sl._rvalue(g, s[2], set(), 0, None)
+                if s[2].get('variant') == 'Ok':
+                    inner = strip(dict(v[3]).get('0', ('unknown',)))
+                elif s[2].get('variant') == 'None' and 'Option<' in g.locals[s[1][0]]['ty'] and not g.ret.startswith('std::result::Result<std::option::Option'):
+                    inner = v
+                else:
+                    continue
+                if inner[0] == 'agg' and inner[2] == 'None' and (s[1] != [0] or g is not rb):
+                    cds = conditions(g, bi, sl)
                     e1 = any(cd.kind == 'variant' and cd.outcome == frozenset({'Err'}) and any(x[0] == 'call' and x[1].endswith('read_toml_file') for x in walk(cd.subject)) for cd in cds)
                     e2 = any(cd.kind == 'variant' and cd.outcome == frozenset({'IoError'}) for cd in cds)
-                    e3 = any(cd.kind == 'bool' and cd.outcome is True and cd.value[0] == 'call' and cd.value[1] == 'libcnb::util::is_not_found_error_kind' for cd in cds)
+                    e3 = any(cd.kind == 'bool' and any(oc is True and val[0] == 'call' and val[1] == nf_pred for val, oc in cd.views()) for cd in cds)
                     st_ok = e1 and e2 and e3
                     detail = 'Err=%s IoError=%s not_found=%s' % (e1, e2, e3)
     rep.check(st_ok, 'R5', 'store/none', '%s:%d' % (rb.file, rb.line), 'store = None only for Err(IoError(e)) with e.kind() == NotFound', 'store tolerance: ' + detail)
